@@ -1133,3 +1133,98 @@ Lemma ex_listing_exact :
   file_wf_b w_listed FA = true /\
   list_coolers w_listed FA = (Ok, [sx; sxy; ["y"%string]; ["y"; "y"]%string]).
 Proof. vm_compute. split; reflexivity. Qed.
+
+(* ------------------------------------------------------------------ errors of cp / ln -s leave everything unchanged *)
+Lemma add_link_err_unchanged : forall w f p l lf e1 e2 e w', (forall o, l <> Hard o) ->
+  add_link w f p l lf e1 e2 = (e, w') -> e <> Ok -> w' = w.
+Proof.
+  unfold add_link; intros w f p l lf e1 e2 e w' Hl H Ne.
+  destruct (split_last p) as [[par n]|]; [|now injection H as _ <-].
+  destruct (ensure w f 0 par) as [[[[w1 [xs xe]] f1] g]|]; [|now injection H as _ <-].
+  destruct l as [o| |]; [exfalso; eapply Hl; eauto| |].
+  - destruct (bind w1 f1 g n (Soft p0)); injection H as <- <-; congruence.
+  - destruct xe; [now injection H as _ <-|].
+    destruct (bind w1 f1 g n (Ext f0 p0)); injection H as <- <-; congruence.
+Qed.
+
+Lemma h5copy_err_unchanged : forall w sf so df dg dp e w', h5copy w sf so df dg dp = (e, w') -> e <> Ok -> w' = w.
+Proof.
+  unfold h5copy; intros w sf so df dg dp e w' H Ne.
+  destruct (split_last dp) as [[par n]|]; [|now injection H as _ <-].
+  destruct (get_store w sf); [|now injection H as _ <-].
+  destruct (ensure w df dg par) as [[[[w1 [xs xe]] f1] g]|]; [|now injection H as _ <-].
+  destruct (xs || negb (fid_eqb f1 df)); [now injection H as _ <-|].
+  destruct (get_store w1 f1); [|now injection H as _ <-].
+  destruct (nth_error s0 g) as [[a ls|]|]; try (now injection H as _ <-).
+  destruct (assoc n ls); [now injection H as _ <-|]. injection H as <- _. congruence.
+Qed.
+
+(** a refused cp or ln -s (no overwrite flag, existing destination file, not the root-destination case)
+    leaves both files exactly as they were *)
+Theorem copy_error_unchanged : forall w sf sp df dp soft e w',
+  file_exists w df = true -> (sf = df \/ dp <> [] \/ soft = true) ->
+  _copy w sf sp df dp false false false soft = (e, w') -> e <> Ok -> w' = w.
+Proof.
+  intros w sf sp df dp soft e w' Hex Hdom H Ne. unfold _copy in H.
+  destruct (Nat.ltb 1 _); [now injection H as _ <-|].
+  destruct (negb (file_exists w sf)); [now injection H as _ <-|].
+  rewrite Hex in H. simpl negb in H. simpl orb in H. rewrite andb_false_r in H. cbv iota in H.
+  destruct (fid_eqb sf df) eqn:Esame; simpl in H.
+  - destruct soft.
+    + eapply add_link_err_unchanged; eauto. intros; discriminate.
+    + destruct (resolve w sf sp); try (now injection H as _ <-). eapply h5copy_err_unchanged; eauto.
+  - destruct soft.
+    + eapply add_link_err_unchanged; eauto. intros; discriminate.
+    + destruct dp as [|d0 dr].
+      * destruct Hdom as [->|[N|N]]; try congruence.
+        rewrite (proj2 (fid_eqb_eq df df) eq_refl) in Esame. discriminate.
+      * destruct (resolve w sf sp); try (now injection H as _ <-). eapply h5copy_err_unchanged; eauto.
+Qed.
+
+(** mv (same file): after a successful move the source NAME is unbound in its parent group *)
+Theorem mv_source_unbound : forall w f sp dp w',
+  _copy w f sp f dp false false true false = (Ok, w') ->
+  exists w2 par n fp gp, sp = par ++ [n] /\ del_link w2 f sp = (Ok, w') /\ world_le w w2 /\
+    resolve w2 f par = Found fp gp /\ lookup_link w' fp gp n = None.
+Proof.
+  intros w f sp dp w' H. unfold _copy in H.
+  change (Nat.ltb 1 (0 + 1 + 0)) with false in H. cbv iota in H.
+  destruct (file_exists w f) eqn:Hex; simpl negb in H; cbv iota in H; [|discriminate].
+  rewrite (proj2 (fid_eqb_eq f f) eq_refl) in H. simpl in H.
+  destruct (resolve w f sp) as [fo o| |] eqn:Er; try discriminate.
+  pose proof (add_link_le w f dp (Hard o) fo EOS EOS) as L.
+  destruct (add_link w f dp (Hard o) fo EOS EOS) as [ea w2] eqn:Ea. simpl in L.
+  destruct ea; try discriminate.
+  exists w2. unfold del_link in H |- *.
+  destruct (split_last sp) as [[par n]|] eqn:Hs; try discriminate.
+  destruct (resolve w2 f par) as [fp gp| |] eqn:Erp; try discriminate.
+  destruct (obj_at w2 fp gp) as [[a ls|]|] eqn:Eg; try discriminate.
+  destruct (assoc n ls) eqn:En; try discriminate.
+  exists par, n, fp, gp. split; [now apply split_last_app|]. split; auto. split; auto. split; auto.
+  injection H as <-. unfold lookup_link. erewrite set_obj_at by eauto. apply assoc_remove_same.
+Qed.
+
+(* ------------------------------------------------------------------ D14a for every budget: the real RecursionError *)
+Lemma go_first_fails : forall vis nm f o r, fst (vis f o nm) <> Ok -> fst (go vis ((nm, Found f o) :: r)) <> Ok.
+Proof.
+  intros vis nm f o r H. simpl. destruct (vis f o nm) as [e sub]. simpl in H. destruct e; simpl; auto.
+Qed.
+
+Lemma w_cycle_objs :
+  obj_at w_cycle FA 0 = Some (Group [("format"%string, AStr MAGIC)] [("a"%string, Hard 3%nat); ("pixels"%string, Hard 1%nat)]) /\
+  obj_at w_cycle FA 3 = Some (Group [] [("b"%string, Hard 0%nat)]).
+Proof. vm_compute. split; reflexivity. Qed.
+
+(** on the file with a hard link to an ancestor NO traversal budget suffices: list_coolers cannot return *)
+Theorem listing_cycle_no_fuel : forall k name, fst (visit k w_cycle FA 0 name) <> Ok.
+Proof.
+  destruct w_cycle_objs as [E0 E3].
+  assert (forall k, (forall name, fst (visit k w_cycle FA 0 name) <> Ok) /\
+                    (forall name, fst (visit k w_cycle FA 3 name) <> Ok)) as K.
+  { induction k as [|k [IH0 IH3]]; [split; intro; simpl; discriminate|]. split; intro name.
+    - rewrite visit_unfold, E0. unfold open_children. simpl open_children_gen.
+      apply go_first_fails. apply IH3.
+    - rewrite visit_unfold, E3. unfold open_children. simpl open_children_gen.
+      apply go_first_fails. apply IH0. }
+  intros k name. apply K.
+Qed.
